@@ -78,6 +78,11 @@ MODULE = {
             "types": TYPES, "requires": ["LInv(self)"], "returns": "Val",
             "ensures": ["result == " + LPV % (K_LRU, K_LRU)],
         },
-        "LRUTrie.__iter__": {"types": TYPES, "requires": ["LInv(self)"], "returns": "Obj", "ensures": []},
+        "LRUTrie.__iter__": {
+            "types": TYPES, "requires": ["LInv(self)"], "returns": "Seq[Val]",
+            # iteration yields the stored metadata: every yielded value is the value of a stored key, every stored key's value is yielded
+            "ensures": ["forall('m', implies(0 <= m and m < len(result), result[m] is not NULL and exists('k', self.__trie.V[k] and result[m] == self.__trie.M[k], self.__trie.V[k])), result[m])",
+                        "forall('k', implies(self.__trie.V[k], exists('m', 0 <= m and m < len(result) and result[m] == self.__trie.M[k], result[m])), self.__trie.V[k])"],
+        },
     },
 }
